@@ -20,7 +20,7 @@
 //	                                                     the next slot (carrying that validator change)    -> ok
 //	state <tip> <mhpc> <mhc> <rh>                        rh = aggregateCommit.height of block mhpc   -> ok
 //	sc <v>:<h>:<variant> ...                             one postSingleCommits gossip message        -> ignore|reject|accept|panic
-//	   variants: ok | sigby=<w> | fork | wrongid | chain2 | garbage | inf | short
+//	   variants: ok | sigby=<w> | fork | wrongid | chain2 | garbage | inf | short | relabel=<h2>
 //	raw <hex>                                            undecodable / empty message                 -> reject|ignore
 //	certify <v> <from> <to> [key=<w>]                    Executer.Certify (key of holder w)          -> ok|err|panic
 //	inject <v>:<h>:<variant> <internal>                  Pool.Add without validation                 -> ok
@@ -341,6 +341,15 @@ func (s *session) commit(spec string) (sc *certificate.SingleCommit, v int, h ui
 		return node.RawSingleCommit(own.BlockID(), h, holder.Address, append([]byte{0xc0}, make([]byte, 95)...)), v, h, false
 	case variant == "short":
 		return node.RawSingleCommit(own.BlockID(), h, holder.Address, own.CertificateSignature()[:95]), v, h, false
+	case strings.HasPrefix(variant, "relabel="):
+		// the holder's genuine commit for the own block at h2, relayed with the height field set to h
+		h2 := uint32(atoi(variant[8:]))
+		hdr2, err := s.n.HeaderAt(h2)
+		if err != nil || h2 > s.n.Height() {
+			return node.RawSingleCommit(forkHeader(hdr).ID, h, holder.Address, own.CertificateSignature()), v, h, false
+		}
+		o2 := certificate.NewSingleCommit(hdr2, holder.Address, s.n.Cfg.ChainID, holder.BLSPriv)
+		return node.RawSingleCommit(o2.BlockID(), h, holder.Address, o2.CertificateSignature()), v, h, h2 == h
 	}
 	panic("bad commit variant " + spec)
 }
